@@ -166,12 +166,12 @@ func (e *Engine) AddOverconstraintConflict(nilReason, nonnilReason inference.Exp
 		// 1. Inferred reason: we have producer and consumer explanations available; use them directly.
 		// 2. Explicit annotation: construct the reason from the annotation string.
 		if producer != nil && consumer != nil {
-			flow.addNilPathNode(producer, consumer)
+			flow.addNilPathNode(producer, consumer, r.Position())
 		} else {
 			flow.addNilPathNode(annotation.LocatedRepr{
 				Contained: r,
 				Location:  e.pass.HumanReadablePosition(r.Position()),
-			}, nil)
+			}, nil, r.Position())
 		}
 	}
 
